@@ -172,6 +172,9 @@ def handler_guard(func) -> Optional[str]:
 def is_logging_call(n: ast.AST) -> bool:
     if not isinstance(n, ast.Call):
         return False
+    if isinstance(n.func, ast.Attribute) and n.func.attr in ("debug", "info", "warning", "error", "exception", "critical") and isinstance(n.func.value, ast.Call) \
+            and (dotted(n.func.value.func) or "") == "logging.getLogger":
+        return True
     d = dotted(n.func) or ""
     parts = d.split(".")
     if len(parts) >= 2 and parts[-1] in ("debug", "info", "warning", "error", "exception", "critical", "warn", "log"):
